@@ -100,7 +100,7 @@ def impl(case):
     return trace
 
 
-def model_calls(case):
+def model_calls(case, impl_obs):
     return [("c20_run", case["ops"])]
 
 
